@@ -96,6 +96,17 @@ theorem C01_pytype_partial (k : Kind) (h : ∀ p, k ≠ .decimal p 0) : pyOf (to
 example : (∀ p, Kind.decimal 10 2 ≠ .decimal p 0) ∧ (∀ p, Kind.timestampTz ≠ .decimal p 0) := by
   constructor <;> intro p h <;> cases h
 
+/-- **Description of numeric columns**: for every declared NUMBER(p,s) — any precision, any scale, two-digit scales
+    included — `cursor.description` of the stored column reports FIXED with exactly the declared precision and scale
+    (it is the scale that makes the connector build `Decimal` vs `int`); the integer family reports FIXED(38,0), the
+    float family REAL. -/
+theorem C01_description_numeric (k : Kind) (d : SfName × Option Nat × Option Nat) (h : declDescr k = some d) :
+    sfDescr (toDuck k) = d := by
+  cases k <;> simp [declDescr] at h <;> subst h <;> rfl
+
+example : declDescr (.decimal 38 37) = some (.fixed, some 38, some 37) ∧ sfDescr (toDuck (.decimal 12 12)) = (.fixed, some 12, some 12) := by
+  decide
+
 /-! ## CLONE / CTAS / INSERT … SELECT -/
 
 /-- **CLONE**: when `CREATE TABLE new CLONE src` succeeds, `new` has exactly the columns and rows of `src` — every row
